@@ -209,6 +209,10 @@ func sharedTypes(p *Program) map[string]bool {
 		}
 		if pt, ok := f.Signature.Results().At(0).Type().(*types.Pointer); ok {
 			if n, ok := pt.Elem().(*types.Named); ok {
+				// records are per-caller values (a lookup helper may hand one back)
+				if rec, isI := p.namedType("record").Underlying().(*types.Interface); isI && (types.Implements(pt, rec) || types.Implements(n, rec)) {
+					continue
+				}
 				if st, ok := n.Underlying().(*types.Struct); ok {
 					for j := 0; j < st.NumFields(); j++ {
 						if sl, ok := st.Field(j).Type().(*types.Slice); ok {
